@@ -319,7 +319,13 @@ func Load(ctx context.Context, wd string, env []string, tags string, patterns []
 					ec.add(notePositionAll(fset.Position(fn.Pos()), errs)...)
 					continue
 				}
-				_, errs = solve(fset, out.out, ins, set)
+				calls, errs := solve(fset, out.out, ins, set)
+				if len(errs) == 0 {
+					if errs := checkInjectorCalls(fset, pkg.PkgPath, fn.Pos(), fn.Name.Name, out, calls); len(errs) > 0 {
+						ec.add(errs...)
+						continue
+					}
+				}
 				if len(errs) > 0 {
 					ec.add(mapErrors(errs, func(e error) error {
 						if w, ok := e.(*wireErr); ok {
